@@ -19,6 +19,8 @@ Theorem C01_generated_core : forall (l : ledger) (a b c : option Z),
       Ok {| t0 := gen_ts_start l lo hi st; rate := gen_ts_rate l lo hi st; len := range_len lo hi st |} lo st
   end.
 Proof. exact time_slice_generated. Qed.
+Theorem C01_generated_derived : forall l, dt_of l = gen_dt l /\ time_length l = gen_time_length l /\ stop_time l = gen_stop_time l.
+Proof. exact (fun l => conj (dt_generated l) (conj (time_length_generated l) (stop_time_generated l))). Qed.
 Theorem C01_generated_guard : forall (a b c : option Z) (n lo hi st : Z),
   slice_indices a b c n = Some (lo, hi, st) -> gen_ts_guard lo hi st = true.
 Proof. exact slice_guard_generated. Qed.
